@@ -11,7 +11,9 @@ RULE = ('one-language caption sets whose captions are 1-3 lines, each line split
         'with 0-4 flat (non-nested, balanced) spans italic / bold / underline / italic+bold over arbitrary node '
         'ranges: line start, line end, across a break, adjacent, empty, whole caption. Chains: DFXP->DFXP, '
         'SAMI->SAMI, DFXP->SAMI, SAMI->DFXP (write, read back with pycaption, compare the (i,b,u) flags of every '
-        'visible character) and WebVTT output (tags tokenised). Plus: every caption any reader returns for '
+        'visible character) and WebVTT output (tags tokenised; a third of the sets let spans reference style '
+        'classes of the set - nested references, an own entry overriding the class, an unknown class - resolved '
+        'by an own resolver). Plus: every caption any reader returns for '
         'generated rich documents has balanced style nodes. Non-trivial: a span touches a break or another span.')
 ANCHORS = ['pycaption.dfxp.base:DFXPReader._convert_style', 'pycaption.dfxp.base:_recreate_style',
            'pycaption.dfxp.base:DFXPWriter._recreate_span', 'pycaption.sami:SAMIReader._translate_tag',
@@ -23,10 +25,32 @@ ANCHORS = ['pycaption.dfxp.base:DFXPReader._convert_style', 'pycaption.dfxp.base
 REQUIRE = {'chain_dfxp': 50, 'chain_sami': 50, 'chain_dfxp>sami': 30, 'chain_sami>dfxp': 30, 'chain_webvtt': 50,
            'reader_captions_balance_checked': 200, 'chars_compared': 5000, 'spans_across_break': 50,
            'adjacent_spans': 50, 'empty_spans': 20, 'italic_chars': 500, 'bold_chars': 200, 'underline_chars': 200, 'positioned_captions': 30, 'suite_captions_balance_checked': 300,
-           'rollup_streams_with_italics_read': 20, 'dfxp_documents_round_tripped': 20}
+           'rollup_streams_with_italics_read': 20, 'dfxp_documents_round_tripped': 20,
+           'webvtt_sets_with_class_styled_spans': 20}
 
 KINDS = [{'italics': True}, {'italics': True}, {'bold': True}, {'underline': True}, {'italics': True, 'bold': True},
          {'italics': True, 'text-align': 'right'}, {'italics': True, 'color': 'red', 'font-family': 'Arial'}]
+
+
+# style classes a span may reference instead of carrying the flag itself (WebVTT chain): the writer
+# resolves them through CaptionSet.get_style, recursively, the span's own entries winning
+CLASS_STYLES = {'ki': {'italics': True}, 'kb': {'bold': True}, 'kiu': {'classes': ['ki'], 'class': 'ki', 'underline': True},
+                'kplain': {'color': 'red'}, 'kall': {'classes': ['kiu', 'kb'], 'class': 'kiu'}}
+CLASS_KINDS = [{'class': 'ki'}, {'classes': ['ki'], 'class': 'ki'}, {'classes': ['ki', 'kb'], 'class': 'ki'}, {'class': 'kiu'},
+               {'class': 'kplain'}, {'class': 'kall'}, {'class': 'ki', 'italics': False}, {'class': 'kb', 'underline': True},
+               {'class': 'nosuch'}]
+
+
+def resolve_flags(style, styles, depth=0):
+    """(italic, bold, underline) of a span's content after resolving its class references: referenced
+    classes first (in order, later ones winning), then the span's own entries."""
+    res = {}
+    refs = style['classes'] if 'classes' in style else [style['class']] if 'class' in style else []
+    if depth < 8:
+        for r in refs:
+            res.update(resolve_flags(styles.get(r, {}), styles, depth + 1))
+    res.update({k: v for k, v in style.items() if k in ('italics', 'bold', 'underline')})
+    return res
 
 
 def gen_caption(rng, tag):
@@ -119,16 +143,32 @@ def cases(ctx):
                 feats.add('positioned')
             caps.append({'start': t, 'end': t + 1500000, 'nodes': nodes, 'style': None, 'layout': None})
             t += 2000000
-        yield {'kind': 'chain', 'chain': chains[i % len(chains)], 'features': sorted(feats),
+        chain = chains[i % len(chains)]
+        styles = None
+        if chain == 'webvtt' and rng.random() < 0.35:
+            # some spans reference a style class of the set instead of carrying the flags themselves
+            styles = {k: dict(v) for k, v in CLASS_STYLES.items()}
+            for c in caps:
+                opened = []
+                for nd in c['nodes']:
+                    if nd[0] != 's':
+                        continue
+                    if nd[1]:
+                        opened.append(rng.choice(CLASS_KINDS) if rng.random() < 0.6 else nd[2])
+                        nd[2] = opened[-1]
+                    elif opened:
+                        nd[2] = opened.pop()
+            feats.add('class-styled')
+        yield {'kind': 'chain', 'chain': chain, 'features': sorted(feats),
                'inline_positioning': rng.random() < 0.4,
-               'set': {'langs': [{'lang': 'en-US', 'layout': None, 'captions': caps}], 'styles': None, 'layout': None}}
+               'set': {'langs': [{'lang': 'en-US', 'layout': None, 'captions': caps}], 'styles': styles, 'layout': None}}
 
 
 def nontrivial(case):
     return case['kind'] in ('reader', 'suite', 'doc-chain') or bool(case['features'])
 
 
-def flags_of_nodes(nodes_dump):
+def flags_of_nodes(nodes_dump, styles=None):
     """[(char, (i, b, u))] for every non-blank character, plus balance problems."""
     out = []
     stack = []
@@ -136,7 +176,7 @@ def flags_of_nodes(nodes_dump):
     for n in nodes_dump:
         if n[0] == 's':
             if n[1]:
-                stack.append(n[2])
+                stack.append(resolve_flags(n[2], styles) if styles else n[2])
             else:
                 if not stack:
                     problems.append('style end without start')
@@ -217,9 +257,9 @@ def check(case, ctx):
     ctx.count('chain_' + chain)
     for f in case['features']:
         ctx.count({'across-break': 'spans_across_break', 'adjacent': 'adjacent_spans', 'empty': 'empty_spans',
-                   'positioned': 'positioned_captions'}[f])
+                   'positioned': 'positioned_captions', 'class-styled': 'webvtt_sets_with_class_styled_spans'}[f])
     cs = dump.mk_caption_set(case['set'])
-    want = [flags_of_nodes(c['nodes'])[0] for c in case['set']['langs'][0]['captions']]
+    want = [flags_of_nodes(c['nodes'], case['set'].get('styles'))[0] for c in case['set']['langs'][0]['captions']]
     for cap in want:
         ctx.count('italic_chars', sum(1 for _c, f in cap if f[0]))
         ctx.count('bold_chars', sum(1 for _c, f in cap if f[1]))
